@@ -47,7 +47,7 @@ def _eval_kind(expr: ast.AST, var: str, elem: str) -> Optional[bool]:
 
 
 def r20_1(prog: Program, chk: Check) -> None:
-    chk.rule("R20.1", "kind predicates: is_provided / is_positional / is_keyword evaluated over the six-element Position domain equal the specification table", floor=18)
+    chk.rule("R20.1", "kind predicates: is_provided / is_positional / is_keyword evaluated over the six-element Position domain equal the specification table", floor=12)
     fn = prog.func("type_evaluation", "ConditionEvaluator.visit_Call")
     found: Dict[str, ast.AST] = {}
     for n in walk_no_nested(fn):
@@ -118,7 +118,7 @@ def marker_spec(kind: str, v: Dict[str, bool]) -> str:
 
 
 def r20_2(prog: Program, chk: Check) -> None:
-    chk.rule("R20.2", "binder markers: the position stored for each parameter follows the specification's kind table for every combination of explicit / starred / default sources", floor=96)
+    chk.rule("R20.2", "binder markers: the position stored for each parameter follows the specification's kind table for every combination of explicit / starred / default sources", floor=60)
     b = Binder(prog)
     site = prog.site("signature", b.fn)
     for kind in ("POSITIONAL_ONLY", "POSITIONAL_OR_KEYWORD", "KEYWORD_ONLY"):
@@ -171,7 +171,7 @@ TEXT = {"Is": "is", "IsNot": "is not", "Eq": "==", "NotEq": "!=", "Gt": ">", "Lt
 
 
 def r20_3(prog: Program, chk: Check) -> None:
-    chk.rule("R20.3", "comparison table _OP_TO_DATA: negation is the logical complement (an involution), impl is the operator of the AST class", floor=22)
+    chk.rule("R20.3", "comparison table _OP_TO_DATA: negation is the logical complement (an involution), impl is the operator of the AST class", floor=16)
     expr = prog.module_assign("type_evaluation", "_OP_TO_DATA")
     if not isinstance(expr, ast.Dict):
         raise AnchorError("_OP_TO_DATA is not a dict literal")
